@@ -51,6 +51,8 @@ func checkC04(ctx *Ctx, r *Report) {
 	c04VisitedKeyConsistency(ctx, r)
 	c04KindGuardedAccess(ctx, r, eng)
 	c04EnumMemberScalar(ctx, r)
+	c04ReflectIndexes(ctx, r)
+	c04OpenAPINilSchemas(ctx, r)
 	c04ConstantIndexes(ctx, r, eng)
 	c04NonEmptyInvariants(ctx, r)
 	c04PathInvariant(ctx, r)
